@@ -102,6 +102,11 @@ def cases(shard, tier):
     for k in (1, 2):
         for w in itertools.product(wins, repeat=k):
             yield [t, ["win", [list(x) for x in w]]]
+    # empty windows (start == stop), also at position 0 and at the end, alone and next to a non-empty one
+    for s in range(L + 1):
+        yield [t, ["win", [[s, s]]]]
+        yield [t, ["win", [[0, L], [s, s]]]]
+        yield [t, ["win", [[s, s], [0, L]]]]
     if L == 4:
         # three windows in every order (a permutation applied twice is the identity for <= 2 windows, not for a 3-cycle)
         for w in itertools.permutations([(0, 2), (1, 4), (2, 3), (3, 4)], 3):
